@@ -77,7 +77,7 @@ def correspondence(ctx):
         blocks[0].txs.insert(1, K.Tx([(GC.rb(r, 32), 2, b"\x01\x02", 0xffffffff)], [(j + 1, scripts(r, coin)) for j in range(600)]))
         # ties for the record figures (biggest value, biggest size) among transactions far apart in one block: however the block is
         # cut into pieces for the worker threads, the FIRST of them in block order is the one reported
-        champion_out = [(21 * 10**14, scripts(r, coin)), (1, b"\x6a\x4c\xf0" + bytes(240))]
+        champion_out = [(3 * 10**17, scripts(r, coin)), (1, b"\x6a\x4d\x00\x7d" + bytes(32000))]     # above every other tx in value (and, bar `fat`, in size)
         for posf in (0.1, 0.45, 0.8, 0.97):
             tb.txs.insert(max(1, int(len(tb.txs) * posf)), K.Tx([(GC.rb(r, 32), 3, b"\x01\x01", 0xffffffff)], list(champion_out)))
         prev = None
@@ -148,18 +148,29 @@ def big_index(ctx, r):
         GC.simple_layout(s, blocks)
         junk = [(b"t" + GC.rb(r, 32), GC.rb(r, 900)) for _ in range(6500 if variant == "one-big-log" else 1500)]
         s.kvs = list(s.kvs) + junk
+        if variant == "one-big-log":
+            s.index_write_buffer = 64 << 20        # the writer's memtable is larger than the reader's: everything stays in ONE log of ~6 MB
         base = C.scratch()
         try:
             d, dump = os.path.join(base, "data"), os.path.join(base, "dump")
             s.write_dir(d)
             os.makedirs(dump)
+            extra_written = []
             if variant == "many-small-batches":
                 # reopen + append a few more records several times: more log files / tables than a freshly written index has
-                for k in range(5):
+                # exactly three appends: with the initial write that leaves FOUR level-0 tables, the state in which the next open has to
+                # compact (a fifth session would already have compacted them away while appending)
+                for k in range(3):
                     extra = K.Scenario(coin="bitcoin")
                     extra.kvs = [(b"u" + GC.rb(r, 32), GC.rb(r, 700)) for _ in range(400)]
                     C.run([C.IMPL, "verif-hook", "mkindex", os.path.join(d, "index")], input="\n".join("%s %s" % (kk.hex(), vv.hex()) for kk, vv in extra.kvs) + "\n", check=False)
-            kv_before = dumpindex(d)
+                    extra_written += extra.kvs
+            # expected content straight from what was written (opening the index to dump it would itself make LevelDB compact,
+            # and the run under test would find nothing left to do)
+            want = {}
+            for kk, vv in list(s.kvs) + extra_written:
+                want[kk] = vv
+            kv_before = "".join("%s %s\n" % (kk.hex(), vv.hex()) for kk, vv in sorted(want.items())).encode()
             files_before = sorted(os.listdir(os.path.join(d, "index")))
             res = s.run_impl(datadir=d, dump=dump)
             res2 = s.run_impl(datadir=d, dump=dump)
